@@ -222,8 +222,11 @@ STAGES = {
                                                            CAPSETS='{{"ENHANCEDSTATUSCODES"}}')),
         ],
         'thorough': [
-            ('send-3x2-b3-shapes', 'Session', cfg(N='3', BUDGET='3', SHAPES='{"lead", "later", "none"}',
+            # (N=3, MAXR=2, BUDGET=3 with three shapes is 1.8 million scenarios and two hours: split into two smaller products)
+            ('send-3x2-b2-shapes', 'Session', cfg(N='3', BUDGET='2', SHAPES='{"lead", "later", "none"}',
                                                    CLASSES='{"t4", "p5"}', CAPSETS='{{"ENHANCEDSTATUSCODES"}, {}}')),
+            ('send-3x1-b3', 'Session', cfg(N='3', MAXR='1', BUDGET='3', SHAPES='{"lead", "later"}',
+                                            CLASSES='{"t4", "p5"}', CAPSETS='{{"ENHANCEDSTATUSCODES"}}')),
             ('send-2x3-b3', 'Session', cfg(MAXR='3', BUDGET='3', SHAPES='{"lead", "later"}', CLASSES='{"t4", "p5"}',
                                             CAPSETS='{{"ENHANCEDSTATUSCODES"}}')),
             ('send-1x2-b2-every-code', 'Session', cfg(N='1', CLASSES='{"t4", "p5"}', CODESETS='0..99',
